@@ -183,7 +183,7 @@ def nm3(prog, rr):
 
 
 # --------------------------------------------------------------------------------------- DS3
-@rule("DS3", ["C15"], "the value requested for a dist field is compared as a literal of the field's own width and signedness", engine="DF", floor=2)
+@rule("DS3", ["C15"], "the value requested for a dist field is compared as a literal of the field's own width and signedness", engine="DF", floor=1)
 def ds3(prog, rr):
     f = prog.method("SolveGroupSwizzlerPartsel", "swizzle_field")
     fp = f.params[1]
@@ -193,7 +193,7 @@ def ds3(prog, rr):
             g = [t for t, pos in _guards(f.node, n) if pos]
             if any("dist_field_m" in t for t in g):
                 lits.append(n)
-    rr.require(len(lits) >= 2, "dist target literals not found in swizzle_field")
+    rr.require(len(lits) >= 1, "dist target literals not found in swizzle_field")
     for n in lits:
         a = [norm(x) for x in n.args]
         rr.inst("dist target literal (%s)" % ", ".join(a))
